@@ -21,18 +21,27 @@ Definition s_ab : str := [97; 98]%N.
 Definition s_b : str := [98]%N.
 Definition fold_of (flags : N) : bool := N.eqb flags 2.      (* re.IGNORECASE *)
 
-(* patterns: 0 = "a", 1 = "^ab", 2 = "b+" *)
+(* Python's \s on str patterns, for the code points that occur in the generated strings *)
+Definition is_ws (c : N) : bool :=
+  existsb (N.eqb c) [9; 10; 11; 12; 13; 32; 28; 29; 30; 31; 133; 160]%N.
+Definition first_is (f : N -> bool) (s : str) : bool := match s with c :: _ => f c | [] => false end.
+
+(* patterns: 0 = "a", 1 = "^ab", 2 = "b+", 3 = "\S+", 4 = "\s+" (the flag IGNORECASE changes nothing for the last two) *)
 Definition t_rmatch (re flags : N) (s : str) : bool :=
   match re with
   | 0%N => starts_with (fold_of flags) s_a s
   | 1%N => starts_with (fold_of flags) s_ab s
-  | _ => starts_with (fold_of flags) s_b s
+  | 2%N => starts_with (fold_of flags) s_b s
+  | 3%N => first_is (fun c => negb (is_ws c)) s
+  | _ => first_is is_ws s
   end.
 Definition t_rsearch (re flags : N) (s : str) : bool :=
   match re with
   | 0%N => contains (fold_of flags) s_a s
   | 1%N => starts_with (fold_of flags) s_ab s
-  | _ => contains (fold_of flags) s_b s
+  | 2%N => contains (fold_of flags) s_b s
+  | 3%N => existsb (fun c => negb (is_ws c)) s
+  | _ => existsb is_ws s
   end.
 
 Definition num_neg (x : num) : num :=
